@@ -102,6 +102,7 @@ fn gen_balanced(rng: &mut Rng) -> Module {
             1 => Card::string_card(format!("balanced{}", rng.below(1000))),
             2 => c(CardBody::CreateTable),
             3 => Card::call_function("work", vec![Card::scalar_int(rng.range(0, 6))]),
+            4 if rng.chance(1, 2) => Card::call_native("mk_str", vec![Card::scalar_int(2 * rng.range(0, 15) + 1)]),
             4 => Card::call_native("mk_table", vec![Card::scalar_int(rng.range(0, 9))]),
             _ => Card::call_function("std.sorted", vec![Card::call_function("work", vec![Card::scalar_int(rng.range(0, 6))])]),
         };
@@ -534,7 +535,7 @@ fn run_history(h: &History, ctx: Option<&mut CaseCtx>) -> Vec<(Json, String, usi
             }
         }
         for f in out.findings.iter() {
-            if ["double-free-object", "release-of-unknown-block", "refund-mismatch"].contains(&f.kind.as_str())
+            if ["double-free-object", "release-of-unknown-block", "refund-mismatch", "guard-never-released"].contains(&f.kind.as_str())
                 && !found.iter().any(|(s, _, _)| s == &f.sig)
             {
                 found.push((f.sig.clone(), f.what.clone(), i));
